@@ -197,5 +197,53 @@ let () =
     | "valid", [f] ->
         let d = str_of_field f in
         finish [field_of_bool (validate_domain pip d)] "ok"
+    | "hist", (mf :: els) ->
+        (* a history of naming calls in one process: every answer has to be the answer of the pure
+           naming function for that call alone (the store only counts what was delivered where) *)
+        let m = (match mf with "0" -> Local | "1" -> Full | _ -> Domain) in
+        let store : (string, int) Hashtbl.t = Hashtbl.create 8 in
+        let count name = (try Hashtbl.find store name with Not_found -> 0) in
+        let state () =
+          let l = Hashtbl.fold (fun k v acc -> (Mlutil.hex k ^ "=" ^ string_of_int v) :: acc) store [] in
+          if l = [] then "-" else String.concat "," (List.sort compare l) in
+        let expected = List.map (fun el ->
+          match String.index_opt el ':' with
+          | None -> "BADELEMENT"
+          | Some i ->
+              let op = String.sub el 0 i and a = str_of_field (String.sub el (i + 1) (String.length el - i - 1)) in
+              (match op with
+               | "n" -> mailbox_field (new_recipient pip m a)
+               | "x" | "m" -> opt_field (extract_mailbox pip m a)
+               | "d" ->
+                   (match new_recipient pip m a with
+                    | None -> "501/" ^ state ()
+                    | Some r -> let n = raw_of_str r.r_mailbox in Hashtbl.replace store n (count n + 1); "250:250/" ^ state ())
+               | "r" -> (match extract_mailbox pip m a with None -> "500" | Some n -> "200:" ^ string_of_int (count (raw_of_str n)))
+               | "p" -> "P" ^ string_of_int (count (raw_of_str a))
+               | _ -> "BADOP")) els in
+        let impl = (match outs with _ :: t -> t | [] -> []) in
+        let rec first_diff i es is ops =
+          match es, is, ops with
+          | e :: es', x :: is', o :: ops' -> if e <> x then Some (i, o) else first_diff (i + 1) es' is' ops'
+          | _ :: _, [], _ -> Some (i, "missing")
+          | _ -> None in
+        (* the same stateless call twice in one history has to give the same answer (no model involved) *)
+        let rec repeat_diff i = function
+          | [] -> None
+          | (el, x) :: rest ->
+              if String.length el > 0 && (el.[0] = 'n' || el.[0] = 'x' || el.[0] = 'm')
+                 && List.exists (fun (el', x') -> el' = el && x' <> x) rest then Some i else repeat_diff (i + 1) rest in
+        let pairs = (try List.combine els impl with _ -> []) in
+        let verdict =
+          match outs with
+          | "PANIC" :: _ -> "fail:panic"
+          | _ ->
+            (match repeat_diff 1 pairs with
+             | Some i -> "fail:same-call-different-name-within-one-process:first-at-call" ^ string_of_int i
+             | None ->
+               (match first_diff 1 expected impl els with
+                | Some (i, el) -> "fail:answer-is-not-that-of-the-call-alone:call" ^ string_of_int i ^ ":" ^ String.sub el 0 (min 1 (String.length el))
+                | None -> "ok")) in
+        finish expected verdict
     | "live", _ -> live pip iptab ins outs
     | _ -> Mlutil.print_model ["UNKNOWN-KIND"] "ok")
